@@ -258,6 +258,25 @@ def r5_recovery(ctx):
                     if e[0] == "switch" and isinstance(e[3], int) and e[3] in (34, 39) and found_index(e[2]) is not None:
                         qs.add(e[3])
             ctx.ob("R5", "skip_eq_value:both-quotes", qs == {34, 39}, "both quote kinds are recognised: %s" % sorted(qs), config=cfg)
+            # the byte that opens the value decides which byte closes it
+            rows = {}
+            for p in paths:
+                finds = [c for c in calls(p) if name_is(c[2], "find") and not isinstance(c[1], tuple)]
+                if len(finds) < 2:
+                    continue
+                f1 = ("call", finds[0][1], finds[0][2], finds[0][3])
+                opened = [e[3] for e in p if e[0] == "switch" and isinstance(e[3], int) and not isinstance(e[3], bool) and e[2][0] == "pl" and has_subterm(e[2], lambda s2: s2 == f1) and e[3] > 1]
+                cl = [strip_wrappers(a) for a in finds[1][3] if strip_wrappers(a)[0] == "closure"]
+                closes = [strip_wrappers(o)[2] for c2 in cl for o in c2[2] if strip_wrappers(o)[0] == "c" and isinstance(strip_wrappers(o)[2], int)]
+                if opened and closes:
+                    rows.setdefault(opened[-1], set()).add(closes[0])
+            ctx.ob("R5", "skip_eq_value:quote-table", rows == {34: {34}, 39: {39}}, "the first non-blank byte after '=' selects the closing quote: '\"' -> '\"', \"'\" -> \"'\" (anything else is an unquoted value): %s" % {k: sorted(v) for k, v in rows.items()}, config=cfg)
+            fp_ok = False
+            if first_pred is not None:
+                cs0 = [callee_of(t)[0] for _, t in first_pred.calls()]
+                neg0 = any(ret_of(p0) is not None and ret_of(p0)[0] == "un" and ret_of(p0)[1] == "Not" for p0 in sym.walk(first_pred))
+                fp_ok = len(cs0) == 1 and name_is(cs0[0] or "", "is_whitespace") and neg0
+            ctx.ob("R5", "skip_eq_value:skips-blanks", fp_ok, "the opening quote is the first byte after '=' that is not XML whitespace", config=cfg)
             unq = any(any(name_is(c[2], "skip_value") for c in calls(p)) for p in paths)
             ctx.ob("R5", "skip_eq_value:unquoted", unq, "an unquoted value is skipped with skip_value", config=cfg)
         # ---- skip_value: payload indexes a non-space byte; predicate is_whitespace rejects it, so starting at it is fine
